@@ -3,7 +3,7 @@
    Statements only; proofs are in Html/HtmlInv.v, Html/HtmlRound.v, Html/HtmlOps.v. *)
 From Coq Require Import List NArith Bool Arith.
 From MV Require Import Base.PyStr Base.Res Html.HtmlTypes Gen.Html Html.HtmlModel Html.HtmlStore
-  Html.HtmlInv Html.HtmlRound Html.HtmlOps Html.HtmlIso Html.SrcPrims Gen.HtmlSrc Html.HtmlSrcProofs.
+  Html.HtmlInv Html.HtmlRound Html.HtmlOps Html.HtmlIso Html.HtmlStripRec Html.SrcPrims Gen.HtmlSrc Html.HtmlSrcProofs.
 Import ListNotations.
 Local Open Scope nat_scope.
 
@@ -129,8 +129,7 @@ Print Assumptions C16_strip_exact.
 
 (* the in-place strip step on any element (the step strip(recurse=True) repeats on every kept
    child): exactly the whitespace-only Data children are dropped, no class, name, attribute, data
-   or other child list changes.  The composition of these steps for recurse=True into one
-   statement about the whole result is not proved (correspondence `op` cases strip01 / strip11). *)
+   or other child list changes.  (The whole result for recurse=True: C16_strip_recursive_exact.) *)
 Theorem C16_strip_step_exact : forall (name : str) (evs : list event) (t : tree) (el : nat) (st' : store),
   build (init_tree name) evs = Ok t -> el < length (t_cells t) ->
   let st := t_cells t in
@@ -141,6 +140,34 @@ Theorem C16_strip_step_exact : forall (name : str) (evs : list event) (t : tree)
                = option_map (fun c => (c_kind c, c_name c, c_attrs c, c_data c)) (nth_error st j)).
 Proof. exact strip_exact_built. Qed.
 Print Assumptions C16_strip_step_exact.
+
+(* strip(recurse=True) of any element of a parsed tree, as one statement about the whole result:
+   the original cells are unchanged and the returned fresh element n is the original i minus, at
+   every level, exactly the whitespace-only Data children (stripped_of: same class / name /
+   attributes / data at every node, the child list of every copy pairs off, in order, with the
+   non-whitespace children of its original).  Proof: deepcopy lays every copied subtree out in one
+   contiguous block of ids (fp), the in-place strip of a child stays inside the child's block, so
+   sibling blocks keep what is established (Html/HtmlStripRec.v). *)
+Theorem C16_strip_recursive_exact :
+  forall (name : str) (evs : list event) (t : tree) (i : nat) (st' : store) (n : nat),
+  build (init_tree name) evs = Ok t ->
+  let st := t_cells t in
+  strip_top st i false true = Ok (st', n) ->
+  n = length st
+  /\ (forall a, a < length st -> nth_error st' a = nth_error st a)
+  /\ stripped_of (S (length st)) st' i n.
+Proof. exact strip_rec_exact_built. Qed.
+Print Assumptions C16_strip_recursive_exact.
+
+(* ... hence it renders as the original rendered with those children skipped at every level *)
+Theorem C16_strip_recursive_render :
+  forall (name : str) (evs : list event) (t : tree) (i : nat) (st' : store) (n : nat),
+  build (init_tree name) evs = Ok t ->
+  let st := t_cells t in
+  strip_top st i false true = Ok (st', n) ->
+  forall g, render g st' n = render_stripped g st' i.
+Proof. exact strip_rec_render. Qed.
+Print Assumptions C16_strip_recursive_render.
 
 (* ---- round 3: the same statements for the code REGENERATED from parse_html.py ----
    Gen/HtmlSrc.v is written on every run by gen/c16_src.py (statement-by-statement translation of
@@ -190,6 +217,19 @@ Theorem C16_copy_strip_pure_src : forall (st : store) (i : nat) (fuel : nat),
      n = length st /\ (forall j, j < length st -> nth_error st' j = nth_error st j)).
 Proof. exact copy_strip_pure_src. Qed.
 Print Assumptions C16_copy_strip_pure_src.
+
+(* the whole result of the regenerated strip(inplace=False, recurse=True) on a tree built by the
+   regenerated parser code, for every fuel with which it terminates *)
+Theorem C16_strip_recursive_exact_src :
+  forall (name : str) (evs : list event) (t : tree) (i : nat) (fuel : nat) (st' : store) (n : nat),
+  build_src (init_tree name) evs = Ok t ->
+  let st := t_cells t in
+  strip_src fuel st i false true = Ok (n, st') ->
+  n = length st
+  /\ (forall a, a < length st -> nth_error st' a = nth_error st a)
+  /\ exists g, stripped_of g st' i n /\ forall h, render h st' n = render_stripped h st' i.
+Proof. exact strip_rec_exact_src. Qed.
+Print Assumptions C16_strip_recursive_exact_src.
 
 (* ---- non-vacuity ---- *)
 Local Open Scope N_scope.
